@@ -20,6 +20,7 @@ import (
 	"reflect"
 	"sort"
 	"strings"
+	"unicode/utf8"
 	"unsafe"
 
 	classifier "github.com/google/licenseclassifier/v2"
@@ -212,8 +213,21 @@ func fileLines(data []byte) []string {
 
 // checkText: Text split into lines equals lines start..end of the file (line
 // terminators are not compared).
-func checkText(text string, data []byte, start, end int) string {
+func checkText(text string, data []byte, start, end int, viaJSON bool) string {
 	fl := fileLines(data)
+	if viaJSON {
+		// A JSON string cannot carry bytes that are not valid UTF-8: the
+		// encoder writes U+FFFD for them. What can be demanded of Text read
+		// back from the JSON file is the file's lines after that same coercion.
+		for i, l := range fl {
+			if !utf8.ValidString(l) {
+				b, _ := json.Marshal(l)
+				var back string
+				json.Unmarshal(b, &back)
+				fl[i] = back
+			}
+		}
+	}
 	if start < 1 || end > len(fl) || start > end {
 		return fmt.Sprintf("lines %d-%d are not inside the file (%d lines)", start, end, len(fl))
 	}
@@ -455,13 +469,13 @@ func runBackend(c *hlib.Ctx) *hlib.Run {
 	for _, e := range exp {
 		total += len(e)
 	}
-	if v := checkJSON(jr, jerr, includeText, files, paths, exp, out); v != nil {
+	if v := checkJSON(jr, jerr, includeText, files, paths, exp, out, false); v != nil {
 		out.Violation = v
 	}
 	return out
 }
 
-func checkJSON(jr results.JSONResult, jerr error, includeText bool, files []fileSpec, paths []string, exp map[string][]entry, out *hlib.Run) *hlib.Violation {
+func checkJSON(jr results.JSONResult, jerr error, includeText bool, files []fileSpec, paths []string, exp map[string][]entry, out *hlib.Run, viaJSON bool) *hlib.Violation {
 	if jerr != nil {
 		return &hlib.Violation{Oracle: "json-text", Class: "json-error:" + classOfErr(jerr), Message: fmt.Sprintf("NewJSONResult(includeText=%v) failed although every file is readable: %v", includeText, jerr)}
 	}
@@ -482,7 +496,7 @@ func checkJSON(jr results.JSONResult, jerr error, includeText bool, files []file
 		for _, cl := range fc.Classifications {
 			if includeText {
 				out.Counters["json_text_checked"]++
-				if msg := checkText(cl.Text, files[i].data, cl.StartLine, cl.EndLine); msg != "" {
+				if msg := checkText(cl.Text, files[i].data, cl.StartLine, cl.EndLine, viaJSON); msg != "" {
 					return &hlib.Violation{Oracle: "json-text", Class: "json-text-mismatch", Message: fmt.Sprintf("file %s (%s), classification %s lines %d-%d: %s", files[i].name, files[i].desc, cl.Name, cl.StartLine, cl.EndLine, msg)}
 				}
 			} else if cl.Text != "" {
@@ -659,7 +673,7 @@ func runMain(c *hlib.Ctx) *hlib.Run {
 			out.Violation = &hlib.Violation{Oracle: "json-text", Class: "json-unparsable", Message: err.Error()}
 			return out
 		}
-		if v := checkJSON(jr, nil, includeText, files, paths, exp, out); v != nil {
+		if v := checkJSON(jr, nil, includeText, files, paths, exp, out, true); v != nil {
 			out.Violation = v
 		}
 	}
